@@ -1,4 +1,5 @@
 """C07 Hard-link semantics: content lives exactly as long as its last name."""
+import os
 import random
 
 from harness import driver, env
@@ -202,20 +203,134 @@ def build(cs, tier):
     return cfg, ops, reopen_at
 
 
+def nameless_boot(params, counters):
+    """A boot file whose names are all removed (El Torito holds the last reference), the image
+    mastered and opened again 0..2 times, then rm_eltorito: the result must open and must declare
+    exactly the size of a twin image that never had the boot file or El Torito (content and space
+    released when the last reference goes), with the same trees.  params: dict(level, joliet, udf,
+    rr, length, load_size, reopens, others)."""
+    import io
+    import pycdlib
+    from pycdlib import pycdlibexception
+    vio = []
+    level, joliet, udf, rr = params['level'], params['joliet'], params['udf'], params['rr']
+    length, bls, reopens = params['length'], params['load_size'], params['reopens']
+    # (an image does not record the length of a boot file that has no name: the library takes
+    # load size x 512 when it opens one, so a load size that covers another number of sectors than
+    # the file is one mechanism whatever the symptom - see known_findings.json)
+    differs = bls is not None and (bls * 512 + 2047) // 2048 != (length + 2047) // 2048
+    tag = 'load-size-differs:reopened' if (differs and reopens > 0) else 'other'
+
+    def base():
+        env.reset(7)
+        iso = pycdlib.PyCdlib()
+        iso.new(interchange_level=level, joliet=3 if joliet else None, udf='2.60' if udf else None, rock_ridge='1.09' if rr else None)
+        for k in range(params['others']):
+            kw = {'iso_path': '/OTHER%d.;1' % k}
+            if rr:
+                kw['rr_name'] = 'other%d' % k
+            if joliet:
+                kw['joliet_path'] = '/other%d' % k
+            if udf:
+                kw['udf_path'] = '/other%d' % k
+            d = bytes((k * 17 + j) & 0xff for j in range(300 + 900 * k))
+            iso.add_fp(io.BytesIO(d), len(d), **kw)
+        return iso
+
+    def master(iso):
+        out = io.BytesIO()
+        iso.write_fp(out)
+        return out.getvalue()
+
+    def view(data):
+        i2 = pycdlib.PyCdlib()
+        i2.open_fp(io.BytesIO(data))
+        v = {}
+        for ns, kw in (('iso', 'iso_path'), ('joliet', 'joliet_path'), ('udf', 'udf_path')):
+            if (ns == 'joliet' and not joliet) or (ns == 'udf' and not udf):
+                continue
+            v[ns] = sorted(os.path.join(d_, f_) for d_, ds_, fs_ in i2.walk(**{kw: '/'}) for f_ in list(fs_) + list(ds_))
+        size = i2.pvd.space_size
+        i2.close()
+        return v, size
+
+    try:
+        twin = base()
+        tdata = master(twin)
+        twin.close()
+        tview, tsize = view(tdata)
+        iso = base()
+        content = bytes((j * 5 + 1) & 0xff for j in range(length))
+        kw = {'iso_path': '/BOOT.;1'}
+        if rr:
+            kw['rr_name'] = 'boot'
+        if joliet:
+            kw['joliet_path'] = '/boot'
+        if udf:
+            kw['udf_path'] = '/boot'
+        iso.add_fp(io.BytesIO(content), length, **kw)
+        ekw = {} if bls is None else {'boot_load_size': bls}
+        if rr:
+            ekw['rr_bootcatname'] = 'boot.cat'
+        iso.add_eltorito('/BOOT.;1', **ekw)
+        iso.rm_hard_link(iso_path='/BOOT.;1')
+        if joliet:
+            iso.rm_hard_link(joliet_path='/boot')
+        if udf:
+            iso.rm_hard_link(udf_path='/boot')
+        for _ in range(reopens):
+            d = master(iso)
+            iso.close()
+            iso = pycdlib.PyCdlib()
+            iso.open_fp(io.BytesIO(d))
+        iso.rm_eltorito()
+        data = master(iso)
+        iso.close()
+        counters['nameless_boot_scenarios'] = counters.get('nameless_boot_scenarios', 0) + 1
+    except pycdlibexception.PyCdlibException as e:
+        return [{'key': ('nameless-boot:raises:%s:%s' % (type(e).__name__, tag)) if tag == 'other' else 'nameless-boot:' + tag, 'detail': '%s: %s %s' % (type(e).__name__, params, e)}]
+    try:
+        v, size = view(data)
+    except pycdlibexception.PyCdlibException as e:
+        return [{'key': ('nameless-boot:not-released:%s' % tag) if tag == 'other' else 'nameless-boot:' + tag, 'detail': 'the image mastered after rm_eltorito cannot be opened (%s: %s); %s' % (type(e).__name__, e, params)}]
+    if size != tsize or len(data) != len(tdata):
+        vio.append({'key': 'nameless-boot:not-released:%s' % tag, 'detail': 'declared size %d sectors (image %d bytes), a twin that never had the boot file declares %d (%d bytes); %s' % (size, len(data), tsize, len(tdata), params)})
+    if v != tview:
+        vio.append({'key': 'nameless-boot:view:%s' % tag, 'detail': 'trees differ from the twin: %s vs %s' % (str(v)[:120], str(tview)[:120])})
+    if data.find(content[64:112]) >= 0:
+        vio.append({'key': 'nameless-boot:bytes-still-stored:%s' % tag, 'detail': str(params)})
+    if tag != 'other':
+        vio = [{'key': 'nameless-boot:' + tag, 'detail': v['key'] + ': ' + v['detail']} for v in vio[:1]]
+    return vio
+
+
+def nameless_params(rng):
+    return {'level': rng.choice([1, 3, 4]), 'joliet': rng.random() < 0.5, 'udf': rng.random() < 0.5, 'rr': rng.random() < 0.4,
+            'length': rng.choice([100, 2048, 2049, 3003, 5000, 10000]), 'load_size': rng.choice([None, None, 1, 4, 8, 40]),
+            'reopens': rng.choice([0, 1, 2]), 'others': rng.choice([0, 1, 3])}
+
+
 def run_case(i, seed, tier):
     counters = {}
     cs = seed * 1000003 + i
     cfg, ops, reopen_at = build(cs, tier)
     vio = run_history(cfg, ops, cs, counters, reopen_at)
+    if i % 4 == 1:
+        params = nameless_params(random.Random(cs))
+        for v in nameless_boot(params, counters):
+            vio.append(dict(v, replay_override={'property': PROPERTY, 'witness_kind': 'nameless-boot', 'params': params}))
     names = [o['op'] for o in ops]
     nt = names.count('add_hard_link') >= 2 and (names.count('rm_hard_link') + names.count('rm_file')) >= 1 and len(cfg.namespaces()) >= 2
     return {'verdict': 'violated' if vio else 'held',
-            'violations': [dict(v, replay=common.replay_doc(PROPERTY, cfg, ops, cs, reopen_at=reopen_at)) for v in vio],
+            'violations': [dict({k_: v_ for k_, v_ in v.items() if k_ != 'replay_override'},
+                                replay=v.get('replay_override') or common.replay_doc(PROPERTY, cfg, ops, cs, reopen_at=reopen_at)) for v in vio],
             'nontrivial': nt, 'shape': common.shape_of(cfg, ops, str(reopen_at is not None)),
             'sample': {'cfg': cfg.to_json(), 'n_ops': len(ops), 'reopen_at': reopen_at, 'ops': common.short_ops(ops, 8)}, 'counters': counters}
 
 
 def replay(doc):
+    if doc.get('witness_kind') == 'nameless-boot':
+        return nameless_boot(doc['params'], {})
     cfg, ops, seed = common.doc_cfg_ops(doc)
     ra = doc.get('reopen_at')
     if ra is not None:
